@@ -33,9 +33,9 @@ from pathlib import Path
 
 import pyben
 
-from torrentfile.hasher import FileHasher
+from torrentfile.hasher import FileHasher, merkle_root
 from torrentfile.mixins import ProgMixin
-from torrentfile.utils import ArgumentError, MissingPathError
+from torrentfile.utils import ArgumentError, MissingPathError, next_power_2
 
 SHA1 = 20
 SHA256 = 32
@@ -517,9 +517,12 @@ class HashChecker(ProgMixin):
             the total size of the mock file generating padding for.
         piece_length : int
             the block size that each hash represents.
+        single : bool
+            the mock file is a whole file of at most one piece, which is
+            compared to the pieces root instead of a piece layer hash.
         """
 
-        def __init__(self, length, piece_length):
+        def __init__(self, length, piece_length, single=False):
             """
             Construct padding class to Mock missing or incomplete files.
 
@@ -529,10 +532,15 @@ class HashChecker(ProgMixin):
                 size of the file
             piece_length : int
                 the piece length for each iteration.
+            single : bool
+                the hash stands for a whole file of at most one piece
             """
             self.length = length
             self.piece_length = piece_length
-            self.pad = sha256(bytearray(piece_length)).digest()
+            self.single = single
+            self.amount = piece_length // BLOCK_SIZE
+            block = sha256(bytearray(BLOCK_SIZE)).digest()
+            self.pad = merkle_root([block for _ in range(self.amount)])
 
         def __iter__(self):
             """
@@ -542,7 +550,7 @@ class HashChecker(ProgMixin):
 
         def __next__(self) -> bytes:
             """
-            Iterate through seemingly endless sha256 hashes of zeros.
+            Iterate through the piece hashes of a file made of zeros.
 
             Returns
             -------
@@ -557,10 +565,60 @@ class HashChecker(ProgMixin):
                 self.length -= self.piece_length
                 return self.pad
             if self.length > 0:
-                pad = sha256(bytearray(self.length)).digest()
+                blocks = [
+                    sha256(bytearray(min(BLOCK_SIZE, self.length - i))).digest()
+                    for i in range(0, self.length, BLOCK_SIZE)
+                ]
+                total = self.amount
+                if self.single:
+                    total = next_power_2(len(blocks))
+                blocks += [bytes(SHA256) for _ in range(total - len(blocks))]
                 self.length -= self.length
-                return pad
+                return merkle_root(blocks)
             raise StopIteration
+
+    class ZeroExtended:
+        """
+        Reader that continues a file which is too short with zero bytes.
+
+        Parameters
+        ----------
+        path : str
+            path to the file on disk
+        limit : int
+            number of bytes up to which the contents are continued with zeros
+        """
+
+        def __init__(self, path: str, limit: int):
+            """
+            Open the file and remember where the zero bytes have to stop.
+            """
+            self.fd = open(path, "rb")
+            self.limit = limit
+            self.pos = 0
+
+        def readinto(self, buffer) -> int:
+            """
+            Fill buffer from the file and, past its end, with zero bytes.
+
+            Returns
+            -------
+            int
+                number of bytes placed in the buffer
+            """
+            size = self.fd.readinto(buffer)
+            missing = min(len(buffer), self.limit - self.pos) - size
+            if missing > 0:
+                buffer[size:size + missing] = bytes(missing)
+                size += missing
+            self.pos += size
+            return size
+
+        def close(self):
+            """
+            Close the file.
+            """
+            self.fd.close()
 
     def next_file(self) -> bool:
         """
@@ -586,15 +644,26 @@ class HashChecker(ProgMixin):
             path = self.paths[self.index]
             self.progbar = self.get_progress_tracker(self.length, path)
             self.count = 0
-            if os.path.exists(self.current):
+            if os.path.exists(self.current) and os.path.getsize(self.current):
                 self.hasher = FileHasher(
                     path,
                     self.piece_length,
                     progress=2,
                     progress_bar=self.progbar,
                 )
+                # absent data counts as zeros: the piece in which a file
+                # that is too short ends is hashed with its missing part
+                # filled with zeros, the pieces after it by the Padder
+                pieces = -(-os.path.getsize(path) // self.piece_length)
+                limit = min(self.length, pieces * self.piece_length)
+                self.hasher.current.close()
+                self.hasher.current = self.ZeroExtended(path, limit)
             else:
-                self.hasher = self.Padder(self.length, self.piece_length)
+                self.hasher = self.Padder(
+                    self.length,
+                    self.piece_length,
+                    single=self.length <= self.piece_length,
+                )
             return True
         if self.index >= len(self.paths):
             del self.current
